@@ -217,10 +217,16 @@ end Graph
 
 /-- the flow analysis of `_get_edges__get_next_for` looks at the item directly before an op, labels included:
 an op that ends the flow, sits behind a context op and is also a jump target (a label stands between the two)
-gets no fall-through edge.  The graph theorem is stated for routines without that shape. -/
-def noLabelAfterCtx : List Item → Bool
-  | .op o :: .label l :: rest => !isCtx o.name && noLabelAfterCtx (.label l :: rest)
-  | _ :: rest => noLabelAfterCtx rest
+gets no fall-through edge; and an op that "will jump guaranteed" (JumpCommon) never gets one, also directly behind a
+context op, where the machine of C01/C02 lets no op stop the routine.  The graph theorem is stated for routines
+without these two shapes: directly behind a context op stands neither a label nor a guaranteed-jump op. -/
+def ctxGuard : List Item → Bool
+  | .op o :: nx :: rest =>
+    (!isCtx o.name || (match nx with
+      | .label _ => false
+      | .op o' => !ESV.Spec.opsJumpGuaranteed.contains o'.name
+      | .ljump _ _ _ => true)) && ctxGuard (nx :: rest)
+  | _ :: rest => ctxGuard rest
   | [] => true
 
 end ESV.Decomp
